@@ -18,7 +18,7 @@ RULE = ('strings: exhaustive token strings over {P,K,B,X,[ ] ( ) { } < > ? - + /
         'strings, 10 positions (incl. the ProForma spellings @N-term / @C-term) x a corpus of unresolvable modification '
         'values (incl. the empty value and alternatives none of which resolves; half of the requests preceded by the mass '
         'or composition of a valid string with bare localisation references) for the deferred clause, and 10 positions x 60 malformed values (unbalanced isotope blocks, empty '
-        'values, dangling signs/tags/alternatives) + 31 malformed adduct lists and global rules whose parse, mass and '
+        'values, dangling signs/tags/alternatives) + 43 malformed adduct lists and global rules whose parse, mass and '
         'comp run under the logical step budget (a loop or a foreign exception is the violation; a lenient numeric '
         'reading is not judged). '
         'signature = (clause, outcome class, class of first token, class of last token, set of bracket kinds present); '
@@ -52,7 +52,11 @@ MALFORMED_TAILS = ['PEPTIDE/2[]', 'PEPTIDE/2[+2]', 'PEPTIDE/2[+]', 'PEPTIDE/2[,]
                    '<[Acetyl]@>PEPTIDE', '<[Acetyl]@,>PEPTIDE', '<[Acetyl]@PP>PEPTIDE', '<@P>PEPTIDE',
                    '<[Acetyl]@P@K>PEPTIDE', '<13C15N>PEPTIDE', '<C>PEPTIDE', '<[Acetyl]>PEPTIDE', '<[Acetyl]@P,>PEPTIDE',
                    'PEP[Acetyl]^0TIDE', '{+1}^2PEPTIDE', '<[Formula:]C]@P>PEPTIDE', '<[Formula:[[C]]]@P>PEPTIDE',
-                   '<[Acetyl]@N-term:P>PEPTIDE', '<[Acetyl]@n-term,c-term>PEPTIDE']
+                   '<[Acetyl]@N-term:P>PEPTIDE', '<[Acetyl]@n-term,c-term>PEPTIDE',
+                   # rule targets that are regular-expression metacharacters (a target is a residue, not a pattern)
+                   '<[Oxidation]@(>PEP', '<[Oxidation]@.>PEP', '<[Oxidation]@*>PEP', '<[Oxidation]@\\>PEP',
+                   '<[Oxidation]@)>PEP', '<[Oxidation]@+>PEP', '<[Oxidation]@?>PEP', '<[Oxidation]@P|E>PEP',
+                   '<[Oxidation]@^>PEP', '<[Oxidation]@$>PEP', '<13C><[Oxidation]@(>PEP', '<[Oxidation]@{2}>PEP']
 POSITIONS = {
     'residue': 'PEP[{v}]TIDE', 'nterm': '[{v}]-PEPTIDE', 'cterm': 'PEPTIDE-[{v}]', 'labile': '{{{v}}}PEPTIDE',
     'unknown': '[{v}]?PEPTIDE', 'interval': 'PE(PT)[{v}]IDE', 'static': '<[{v}]@P>PEPTIDE',
